@@ -1,0 +1,185 @@
+//go:build verif
+
+// Add-only exports for the verification harness (/verif, property C17).
+// Not compiled without the `verif` build tag.
+package discover
+
+import (
+	"errors"
+	"net"
+	"strings"
+	"sync"
+
+	"gitlab.com/aquachain/aquachain/rlp"
+)
+
+const (
+	VerifMacSize  = macSize
+	VerifSigSize  = sigSize
+	VerifHeadSize = headSize
+
+	VerifEthPing      = ethpingPacket
+	VerifEthPong      = ethpongPacket
+	VerifEthFindnode  = ethfindnodePacket
+	VerifEthNeighbors = ethneighborsPacket
+
+	VerifAquaPing      = aquapingPacket
+	VerifAquaPong      = aquapongPacket
+	VerifAquaFindnode  = aquafindnodePacket
+	VerifAquaNeighbors = aquaneighborsPacket
+)
+
+// VerifEndpoint / VerifNode mirror rpcEndpoint / rpcNode.
+type VerifEndpoint struct {
+	IP       []byte
+	UDP, TCP uint16
+}
+type VerifNode struct {
+	IP       []byte
+	UDP, TCP uint16
+	ID       NodeID
+}
+
+func verifRest(rest [][]byte) []rlp.RawValue {
+	var out []rlp.RawValue
+	for _, r := range rest {
+		out = append(out, rlp.RawValue(r))
+	}
+	return out
+}
+
+func VerifMakePing(version uint, from, to VerifEndpoint, exp uint64, rest [][]byte) interface{} {
+	return &ping{Version: version, From: rpcEndpoint{IP: from.IP, UDP: from.UDP, TCP: from.TCP},
+		To: rpcEndpoint{IP: to.IP, UDP: to.UDP, TCP: to.TCP}, Expiration: exp, Rest: verifRest(rest)}
+}
+func VerifMakePong(to VerifEndpoint, tok []byte, exp uint64, rest [][]byte) interface{} {
+	return &pong{To: rpcEndpoint{IP: to.IP, UDP: to.UDP, TCP: to.TCP}, ReplyTok: tok, Expiration: exp, Rest: verifRest(rest)}
+}
+func VerifMakeFindnode(target NodeID, exp uint64, rest [][]byte) interface{} {
+	return &findnode{Target: target, Expiration: exp, Rest: verifRest(rest)}
+}
+func VerifMakeNeighbors(nodes []VerifNode, exp uint64, rest [][]byte) interface{} {
+	n := &neighbors{Expiration: exp, Rest: verifRest(rest)}
+	for _, x := range nodes {
+		n.Nodes = append(n.Nodes, rpcNode{IP: x.IP, UDP: x.UDP, TCP: x.TCP, ID: x.ID})
+	}
+	return n
+}
+
+// VerifEncodePacket is encodePacket.
+func VerifEncodePacket(netcompat bool, priv *PrivateKey, ptype byte, req interface{}) (packet, hash []byte, err error) {
+	return encodePacket(netcompat, priv, ptype, req)
+}
+
+func verifKind(p packet) string {
+	switch p.(type) {
+	case *ping:
+		return "ping"
+	case *pong:
+		return "pong"
+	case *findnode:
+		return "findnode"
+	case *neighbors:
+		return "neighbors"
+	}
+	return "nil"
+}
+
+// VerifDecodePacket is decodePacket with its result canonicalised:
+// class: ok | toosmall | badhash | badsig | unknowntype | badbody | emptysigdata;
+// kind: ping|pong|findnode|neighbors (ok, badbody); reenc: the canonical RLP
+// re-encoding of the decoded request (ok only).  A Go panic propagates.
+func VerifDecodePacket(netcompat bool, buf []byte) (class, kind string, reenc []byte, id NodeID, hash []byte) {
+	req, id, hash, err := decodePacket(netcompat, buf)
+	switch {
+	case err == nil:
+		reenc, eerr := rlp.EncodeToBytes(req)
+		if eerr != nil {
+			return "ok-reencode-failed", verifKind(req), nil, id, hash
+		}
+		return "ok", verifKind(req), reenc, id, hash
+	case err == errPacketTooSmall:
+		return "toosmall", "", nil, id, hash
+	case err == errBadHash:
+		return "badhash", "", nil, id, hash
+	case strings.HasPrefix(err.Error(), "unknown type"):
+		return "unknowntype", "", nil, id, hash
+	case strings.HasPrefix(err.Error(), "empty discovery packet"):
+		return "emptysigdata", "", nil, id, hash
+	case req == nil || (id == NodeID{}):
+		return "badsig", "", nil, id, hash
+	default:
+		return "badbody", verifKind(req), nil, id, hash
+	}
+}
+
+// VerifRecoverNodeID is recoverNodeID.
+func VerifRecoverNodeID(hash, sig []byte) (NodeID, error) { return recoverNodeID(hash, sig) }
+
+// VerifExpired is expired(ts) != nil.
+func VerifExpired(ts uint64) bool { return expired(ts) != nil }
+
+// VerifMaxNeighbors is the computed maxNeighbors.
+func VerifMaxNeighbors() int { return maxNeighbors }
+
+// ---- a udp transport over a fake socket, for handlePacket
+
+type verifConn struct {
+	mu     sync.Mutex
+	closed chan struct{}
+	once   sync.Once
+	Sent   int
+}
+
+func (c *verifConn) ReadFromUDP(b []byte) (int, *net.UDPAddr, error) {
+	<-c.closed
+	return 0, nil, errors.New("closed")
+}
+func (c *verifConn) WriteToUDP(b []byte, addr *net.UDPAddr) (int, error) {
+	c.mu.Lock()
+	c.Sent++
+	c.mu.Unlock()
+	return len(b), nil
+}
+func (c *verifConn) Close() error { c.once.Do(func() { close(c.closed) }); return nil }
+func (c *verifConn) LocalAddr() net.Addr {
+	return &net.UDPAddr{IP: net.IP{127, 0, 0, 1}, Port: 30303}
+}
+
+type VerifUDP struct {
+	t    *udp
+	conn *verifConn
+}
+
+func VerifNewUDP(priv *PrivateKey, chainid uint64) (*VerifUDP, error) {
+	c := &verifConn{closed: make(chan struct{})}
+	_, t, err := newUDP(c, Config{PrivateKey: priv, ChainId: chainid})
+	if err != nil {
+		return nil, err
+	}
+	return &VerifUDP{t: t, conn: c}, nil
+}
+
+// HandlePacket is udp.handlePacket; class: ok | expired | unsolicited | unknownnode | err.
+func (u *VerifUDP) HandlePacket(from *net.UDPAddr, buf []byte) string {
+	err := u.t.handlePacket(from, buf)
+	switch {
+	case err == nil:
+		return "ok"
+	case errors.Is(err, errExpired):
+		return "expired"
+	case err == errUnsolicitedReply:
+		return "unsolicited"
+	case err == errUnknownNode:
+		return "unknownnode"
+	default:
+		return "err"
+	}
+}
+func (u *VerifUDP) Netcompat() bool { return u.t.netcompat() }
+func (u *VerifUDP) Sent() int {
+	u.conn.mu.Lock()
+	defer u.conn.mu.Unlock()
+	return u.conn.Sent
+}
+func (u *VerifUDP) Close() { u.t.Table.Close() } // the table's loop closes the transport itself
